@@ -11,6 +11,7 @@ from . import _rows
 
 PROP = "C17"
 LEVEL = "fault_enumeration"
+ANCHORS = ["batt_life", "get_conf", "_diag", "System.solve", "plot_interp"]  # functions whose reached lines are reported in the evidence
 RULE = (
     "cases (a) = random interleavings of 12-30 analysis calls (solve with assorted arguments, rail_rep, params, "
     "limits, phases, tree, save, plot_interp, make_diag, make_hdiag, batt_life) on one or two random systems with "
